@@ -260,6 +260,10 @@ def main():
             tags[tg] = tags.get(tg, 0) + 1
         if r.get("nontrivial"):
             sigs[r.get("sig") or common.case_hash(r["case"])] = 1
+    metrics = {}
+    for r in results:
+        for mk_, mv in (r.get("metrics") or {}).items():
+            metrics[mk_] = max(metrics.get(mk_, mv), mv)
     samples = [r["case"] for r in results[:3]] + [r.get("sample") for r in results[:2] if r.get("sample")]
     violations = len(fails) + (1 if (not fails and (diffs or proofs["problems"])) else 0)
     ev = {
@@ -286,6 +290,7 @@ def main():
             "samples": samples[:5],
             "corpus_cases": ncorpus,
             "tags": dict(sorted(tags.items())),
+            "max_metrics": metrics,
             "correspondence_diffs": len(diffs),
             "judge_failures": len(fails),
             "known_findings_seen": {k: v[1] for k, v in known.items()},
